@@ -380,7 +380,7 @@ class CorrelationFunction(DFunction, UnitsManaged):
         ctime = params["gamma"]
         
         # use the units in which params was defined
-        lamb = params["reorg"]
+        lamb = self.convert_energy_2_internal_u(params["reorg"])
         time = self.axis #.data
 
         if values is not None:
@@ -412,8 +412,7 @@ class CorrelationFunction(DFunction, UnitsManaged):
         ctime = params["gamma"]
         
         # use the units in which params was defined
-        lamb = self.manager.iu_energy(params["reorg"],
-                                      units=self.energy_units)
+        lamb = self.convert_energy_2_internal_u(params["reorg"])
         time = self.axis #.data
 
         if values is not None:
@@ -444,8 +443,7 @@ class CorrelationFunction(DFunction, UnitsManaged):
         #omega = params["freq"]
         
         # use the units in which params was defined
-        lamb = self.manager.iu_energy(params["reorg"],
-                                      units=self.energy_units)
+        lamb = self.convert_energy_2_internal_u(params["reorg"])
         print('correlation function lamb in int units %f' %lamb)
         time = self.axis #.data
 
